@@ -45,6 +45,7 @@ def decCmd : List String → Option Cmd
   | ["defaultCapRemove", a] => do pure (.defaultCapRemove (← dec a))
   | ["configCaps", a] => do pure (.configCaps (← decL "," a))
   | ["flushReload"] => some .flushReload
+  | ["reload"] => some .reload
   | _ => none
 
 def stepD (st : St) : List String → St × String
@@ -52,7 +53,7 @@ def stepD (st : St) : List String → St × String
     match decUsers us, decChans chans, decL "," dflt, decL "," reg, decB flag with
     | some us, some chans, some dflt, some reg, some flag =>
       let n := us.foldl (fun m p => max m p.1) 0
-      let st' : St := { users := us, nextId := n, channels := chans, defaults := dflt, registered := reg, defaultFlag := flag }
+      let st' : St := flushU { users := us, nextId := n, channels := chans, defaults := dflt, registered := reg, defaultFlag := flag }
       (st', encSt st')
     | _, _, _, _, _ => (st, "bad-op")
   | "cmd" :: pfx :: rest =>
